@@ -1,3 +1,4 @@
 //! Shared helpers for the verification harness binaries.
 pub mod keys;
+pub mod msgs;
 pub mod util;
